@@ -54,3 +54,23 @@ Theorem C05_non_destination_unchanged : forall m k i fs acc j f,
   nth_opt fs j = Some f -> ~ dest m (f_num f) -> nth_opt (fst (expand_all k i m fs acc)) j = Some f.
 Proof. exact decoded_non_destination_unchanged. Qed.
 Print Assumptions C05_non_destination_unchanged.
+
+(* value level, complete for the narrow components: for every component of the profile that is at most 16 bits wide (15 distinct
+   width / scale / offset combinations, 120 components) and EVERY raw value of its width, what the expansion computes --
+   f64_to_u32 (so_discard (so_apply bits cscale coffset) dscale doffset), the very expression of expand_loop, over primitive
+   floats -- is the exact rational ((bits / cscale - coffset) + doffset) x dscale rounded half away from zero.  A complete sweep
+   under vm_compute, lifted to the profile table.  Wider components (17..32 bits, accumulated totals) stay with the per-run
+   oracle. *)
+From Coq Require Import ZArith.
+From Fit Require Import Proofs.ExpandValue.
+Theorem C05_small_component_values_exact : forall m fbs fb c v, In (m, fbs) mesgs -> In fb fbs -> In c (ExpandValue.all_comps fb) ->
+  c_bits c <= 16 -> v < 2 ^ c_bits c ->
+  let '(ds, do_) := dest_so m c in
+  exists z, exact_value v (f64_of_bits (c_scale c)) (f64_of_bits (c_offset c)) ds do_ = Some z /\
+            pipeline v (f64_of_bits (c_scale c)) (f64_of_bits (c_offset c)) ds do_ = Z.to_N (z mod 4294967296)%Z.
+Proof. exact small_component_values_exact. Qed.
+Print Assumptions C05_small_component_values_exact.
+(* the pipeline is the expression of the expansion loop *)
+Example C05_pipeline_is_expand_loop : forall v cs co ds do_,
+  pipeline v cs co ds do_ = f64_to_u32_mode mode_expand (so_discard (so_apply v cs co) ds do_).
+Proof. reflexivity. Qed.
